@@ -152,7 +152,9 @@ EXPORT errno_t _mbsrtowcs_s_chk(size_t *restrict retvalp,
             }
             BND_CHK_PTR_BOUNDS(dest, destsz);
         } else {
-            if (unlikely(destsz > destbos || len * sizeof(wchar_t) > destbos)) {
+            if (unlikely(destsz > destbos ||
+                         destsz / sizeof(wchar_t) != dmax ||
+                         len > destbos / sizeof(wchar_t))) {
                 if (unlikely(dmax > RSIZE_MAX_WSTR || len > RSIZE_MAX_WSTR)) {
                     invoke_safe_str_constraint_handler("mbsrtowcs_s"
                                                        ": dmax/len exceeds max",
